@@ -257,6 +257,16 @@ func tkSweep() []func(*TKParams) {
 
 func genTK(r *lib.Rand, h *History, i int) {
 	p := TKParams{Tax: sp("400000000000000000"), Fee: Coin{1, sp("60000")}, Ratio: sp("100000000000000000"), Erc20: true, Beacon: 0}
+	if j := i - len(tkSweep()); j >= 0 && j < 5 { // boundary x repetition: rates exactly 0 and exactly 1, several issues and mints
+		one := p18.String()
+		[]func(){func() { p.Tax = sp("0") }, func() { p.Tax = sp(one) }, func() { p.Ratio = sp("0") }, func() { p.Ratio = sp(one) },
+			func() { p.Tax = sp(one); p.Ratio = sp(one); p.Fee = Coin{5, sp("7")} }}[j]()
+		h.TK = &p
+		h.Via = sweepVia(j)
+		h.Steps = []Step{{"issue", []string{"0"}}, {"issue", []string{"1"}}, {"mint", []string{"1000"}}, {"mint", []string{"7"}},
+			{"issue", []string{"5"}}, {"mint", []string{"1"}}, {"issue", []string{"0"}}}
+		return
+	}
 	if sw := tkSweep(); i < len(sw) {
 		sw[i](&p)
 		h.TK = &p
